@@ -12,5 +12,12 @@ OBLIGATIONS = [
   Ob('C10.normal_dec_desc', 'C10/normaldec.cc', 'h_normal_dec_desc', tier='quick', unwind=8, max_alloc=160, fill_bound=6,
      bound='every supported bitstream version 1.0 .. 2.3, 4 symbolic parameter bytes with symbolic length, real SequentialNormalAttributeDecoder / PointAttribute objects',
      covers='SequentialNormalAttributeDecoder::DecodeDataNeededByPortableTransform (2.0 gate), AttributeOctahedronTransform::DecodeParameters/TransferToAttribute/InitFromAttribute'),
+  Ob('C10.kd_skip', 'C10/kdxform2.cc', 'h_kd_skip', tier='quick', unwind=14, defines={'_GLIBCXX_ASSERTIONS': 1}, unwindset=['strlen.0:32'], uf_float=True, max_alloc=64, timeout=900, mem_gb=20, diff=False,
+     bound='kd-tree decoder with 2 float attributes of arbitrary semantic type (1 value x 1 component), EVERY subset of attribute types skipped, q symbolic 1..30, parameters and integers arbitrary; option lookup replaced by a table',
+     covers='KdTreeAttributesDecoder::TransformAttributesToOriginalFormat, PointAttribute::CopyFrom, GeometryAttribute::CopyFrom, DataBuffer::Update/Write, AttributeTransformData copy, Dequantizer on real decoder / PointCloud / PointAttribute objects'),
+  Ob('C10.kd_portable_id', 'C10/kdport.cc', 'h_kd_portable_id', tier='quick', unwind=6, max_alloc=256, timeout=900, mem_gb=20,
+     stubs={'_ZNSt6vectorISt10unique_ptrIN5draco14PointAttributeESt14default_deleteIS2_EESaIS5_EE17_M_realloc_insertIJS5_EEEvN9__gnu_cxx17__normal_iteratorIPS5_S7_EEDpOT_': 'unreachable'},
+     bound='kd-tree decoder (bitstream 2.3) with 2 float attributes of arbitrary type, 1..4 components and ARBITRARY unique ids, 0 points; the kd-tree core is cut by an invalid compression level (rejected after the creation loop)',
+     covers='KdTreeAttributesDecoder::DecodePortableAttributes (creation of the portable attributes), PointAttribute::Reset/SetIdentityMapping, GeometryAttribute::Init'),
 ]
 META = {}
